@@ -1,6 +1,7 @@
 from collections import defaultdict, deque
 from typing import (
     TYPE_CHECKING,
+    Any,
     DefaultDict,
     Dict,
     Generic,
@@ -61,7 +62,7 @@ EqPathTracker = DefaultDict[
     Tuple[int, int],
     DefaultDict[
         Tuple[int, int],
-        Dict[Tuple[Tuple[int, ...], Tuple[int, ...]], bool],
+        Dict[Tuple[Any, ...], bool],
     ],
 ]
 
@@ -772,7 +773,16 @@ class EqPathParallelSpecFinder(
         if the actual rules required (disregarding actual equivalence rules) to traverse
         this path match.
         """
-        children = (sp1[id1], sp2[id2])
+        # The path starts at the actual child of the grandparents' rules, so
+        # those rules and the child positions are part of the key.
+        children = (
+            sp1.get(pid1),
+            sp2.get(pid2),
+            idx1,
+            idx2,
+            sp1[id1],
+            sp2[id2],
+        )
         children_cache = cache[(id1, id2)][(pid1, pid2)]
         if children not in children_cache:
             path1 = EquivalenceRuleExtractor(
